@@ -12,4 +12,5 @@ PROP = dict(
     level_text="TLC checks the staged load (parse, directive setup in directive order, startup callback, listeners) with its failure path for all histories up to the bound: after a failed attempt the process-global state equals the state at the call, validation never changes anything, the htpasswd lock is free between attempts, and every attempt returns. Each history is executed for real (validate, Start, Restart around a running base site; 14 configuration kinds) and after every attempt the listening sockets of the process (/proc/self/net/tcp), the event-hook registry, the instance list and the base site's answer are observed and compared by TLC with the specification's state; a final valid start must succeed, answer like in a fresh process and every attempt must return within a watchdog.",
     level_note="Trusted: TLC; /proc as the view of the process's sockets; casket.ListPlugins() for the hook registry. UDP/QUIC sockets, log-roller and certificate caches are not observed. Histories are run in one process (a detected residue taints later histories, which is reported once).",
     assumptions=["one process for all histories; each history starts from the base-only state", "SIGUSR1 surface not driven (API-level Restart is)"],
+    selftest_expects_mismatch=True,
 )
